@@ -570,6 +570,7 @@ def main(rep, ws, tier):
             from . import c02
             c02.check_f16c(rep, c02.f16c_graphs(ws), 'src/Imath/half.h', rule='R01.f16c')
             c02.env_rule_software(rep, ws, 'R01.env')
+            c02.fpexc_rule(rep, ws, 'R01.fpexc')
         except (build.BuildError, vg.Unsupported) as e:
             rep.ob('vcvtps2ph immediate', 'R01.f16c', UNDECIDED, str(e)[:300])
     rep.floor('table entries compared', rep.extra.get('table_entries_checked', 0), 65536)
